@@ -215,10 +215,12 @@ def sc_textbook(ctx, d, dcell, case, llr, mask, fv, polar_i, regime, br):
     import torch
     l64 = llr.astype(np.float64)
     nat = l64[br] if polar_i else l64
-    u_ref, dec_llr, mx = RS.sc_decode(nat, mask, fv, regime)
+    u_ref, dec_llr, mx = RS.sc_decode(nat, mask, fv, regime, clip=float(getattr(d, "clip", 1000.0)) if regime == "min_sum" else None)
     margin = np.abs(dec_llr[mask]).min() if mask.any() else 1.0
     if regime == "min_sum":
-        if mx > 1000 or margin < 1e-4:
+        # the reference saturates the check node at the decoder's documented clip, so large accumulated values are inside the modelled domain;
+        # float32 sums stay exact enough while the decision margin is not tiny relative to the largest intermediate value
+        if margin < max(1e-4, 1e-5 * mx):
             ctx.cls("sc_textbook_skipped_margin")
             return
     else:
@@ -272,6 +274,14 @@ def unit_user_masks(ctx, n_cases):
             mask[i] = True
         check_cell(ctx, N, k, fz, pi, mask_list=mask, seed=ctx.seed, n_llr=2)
     draw_cases(strat, n_cases, ctx.seed * 53 + 1, f)
+    # long codes with masks that are not reliability-ordered: accumulated LLRs pass the check-node clip (min-sum, |LLR| up to 100)
+    rng = np.random.RandomState(ctx.seed + 77)
+    for N in (256, 1024):
+        for rep in range(2):
+            k = int(rng.randint(N // 4, 3 * N // 4))
+            mask = np.zeros(N, dtype=bool)
+            mask[rng.choice(N, size=k, replace=False)] = True
+            check_cell(ctx, N, k, bool(rep), False, mask_list=mask.tolist(), regimes=("min_sum",), seed=ctx.seed + rep, n_llr=12)
 
 
 def unit_sequence_invariants(ctx):
